@@ -36,3 +36,10 @@ Theorem C06_global_scope_anonymous_namespace_refutes_external_linkage : forall t
   hd [] (splitlines (str_namespace [] t)) = L "namespace {".
 Proof. exact global_scope_is_anonymous_namespace. Qed.
 Print Assumptions C06_global_scope_anonymous_namespace_refutes_external_linkage.
+
+(* REFUTED clause "support headers generated with different namespace prefixes coexist": two different prefixes can give the
+   same file names (identifiers are joined with '_'), with different namespaces inside (known finding K10) *)
+Theorem C06_prefix_file_names_not_injective_refutes_coexistence :
+  exists p q, p <> q /\ sf_file_ns (Some p) = sf_file_ns (Some q) /\ sf_ns (Some p) <> sf_ns (Some q).
+Proof. exact prefix_file_names_not_injective. Qed.
+Print Assumptions C06_prefix_file_names_not_injective_refutes_coexistence.
